@@ -242,7 +242,163 @@ def extract_versions(emit):
     emit(f"def match_tilde_ops : List (List Char) := {lean_list(tilde)}")
 
 
-SECTIONS = [("versions", extract_versions)]
+def fstring_template(node) -> str | None:
+    """text of a str constant or f-string, with \x00 for interpolated parts"""
+    if isinstance(node, ast.Constant) and isinstance(node.value, str):
+        return node.value
+    if isinstance(node, ast.JoinedStr):
+        return "".join(v.value if isinstance(v, ast.Constant) else "\x00" for v in node.values)
+    return None
+
+
+def emit_class_tables(emit, prefix: str, cls, inst):
+    fm = cls.formatter()
+    rows = []
+    for k, v in fm.items():
+        if "regex" in v:
+            rows.append((k, False, v["regex"]))
+        elif "cregex" in v:
+            rows.append((k, True, v["cregex"]))
+        else:
+            raise ExtractError(f"{prefix}: directive {k} has neither regex nor cregex")
+        if "value" not in v:
+            raise ExtractError(f"{prefix}: directive {k} has no renderer")
+    emit(f"def {prefix}_formatter : List (List Char × Bool × List Char) := " + lean_list(rows, lambda r: f"({lean_str(r[0])}, {'true' if r[1] else 'false'}, {lean_str(r[2])})"))
+    pr = inst.priorities
+    emit(f"def {prefix}_priorities : List (List Char × List Nat) := " + lean_list(pr.items(), lambda kv: f"({lean_str(kv[0])}, {lean_level(kv[1].get('level', (0,)))})"))
+    emit(f"def {prefix}_base_fmt : List Char := {lean_str(cls.base_fmt)}")
+    emit(f"def {prefix}_base_level : Nat := {int(cls.base_level)}")
+    emit(f"def {prefix}_slots : List (List Char) := {lean_list(cls.__slots__)}")
+    emit(f"def {prefix}_name : List Char := {lean_str(cls.__name__)}")
+
+
+def extract_formatters(emit):
+    import functools
+    import fmtutil.formatter as F
+
+    tree = module_ast(F)
+    # the engine's meta-regexes ------------------------------------------------------------------
+    fn = find_func(tree, "gen_format", "Formatter")
+    pats = re_call_patterns(fn)
+    fi = [p for m, p in pats if m == "finditer"]
+    su = [p for m, p in pats if m == "sub"]
+    if len(fi) != 2 or len(su) != 1:
+        raise ExtractError(f"Formatter.gen_format: expected 2 finditer + 1 sub patterns, got {pats}")
+    emit(f"def gen_format_token_re : List Char := {lean_str(fi[0])}")
+    emit(f"def gen_format_inner_re : List Char := {lean_str(fi[1])}")
+    pre, _, post = su[0].partition("\x00")
+    emit(f"def gen_format_sub_pre : List Char := {lean_str(pre)}")
+    emit(f"def gen_format_sub_post : List Char := {lean_str(post)}")
+    # replacement template of the sub and the escape handling, by ast
+    tmpl = None
+    for n in ast.walk(fn):
+        if isinstance(n, ast.JoinedStr):
+            t = fstring_template(n)
+            if t and t.startswith("(?P<"):
+                tmpl = t
+    # adjacent f-strings are concatenated by the parser into one JoinedStr
+    if tmpl is None or tmpl.count("\x00") != 4:
+        raise ExtractError(f"Formatter.gen_format: alias template not found ({tmpl!r})")
+    parts = tmpl.split("\x00")
+    emit(f"def gen_format_alias_parts : List (List Char) := {lean_list(parts)}")
+    fn = find_func(tree, "regex", "Formatter")
+    pats = [p for m, p in re_call_patterns(fn) if m == "finditer"]
+    if len(pats) != 1:
+        raise ExtractError("Formatter.regex: token pattern not found")
+    emit(f"def regex_token_re : List Char := {lean_str(pats[0])}")
+    fn = find_func(tree, "format", "Formatter")
+    pats = [p for m, p in re_call_patterns(fn) if m == "finditer"]
+    if len(pats) != 1:
+        raise ExtractError("Formatter.format: token pattern not found")
+    emit(f"def format_token_re : List Char := {lean_str(pats[0])}")
+    strs = [c for c in str_consts(fn)]
+    if "[ESCAPE]" not in strs or "%%" not in strs:
+        raise ExtractError("Formatter.format: escape sentinel not found")
+    emit(f"def format_escape : List Char := {lean_str('[ESCAPE]')}")
+    fn = find_func(tree, "from_value", "Formatter")
+    pats = [p for m, p in re_call_patterns(fn) if m == "findall"]
+    if len(pats) != 1:
+        raise ExtractError("Formatter.from_value: token pattern not found")
+    emit(f"def from_value_token_re : List Char := {lean_str(pats[0])}")
+    fn = find_func(tree, "parse", "Formatter")
+    pats = [p for m, p in re_call_patterns(fn) if m == "search"]
+    if len(pats) != 1 or pats[0].count("\x00") != 1:
+        raise ExtractError("Formatter.parse: anchored search not found")
+    a, _, b = pats[0].partition("\x00")
+    emit(f"def parse_anchor_pre : List Char := {lean_str(a)}")
+    emit(f"def parse_anchor_post : List Char := {lean_str(b)}")
+    fn = find_func(tree, "__parse", "FormatterGroup")
+    pats = [p for m, p in re_call_patterns(fn) if m == "search"]
+    if len(pats) != 1 or pats[0].count("\x00") != 1:
+        raise ExtractError("FormatterGroup.__parse: anchored search not found")
+    a, _, b = pats[0].partition("\x00")
+    emit(f"def group_anchor_pre : List Char := {lean_str(a)}")
+    emit(f"def group_anchor_post : List Char := {lean_str(b)}")
+    fn = find_func(tree, "gen_format", "FormatterGroup")
+    pats = [p for m, p in re_call_patterns(fn) if m == "finditer"]
+    if len(pats) != 1 or pats[0].count("\x00") != 1:
+        raise ExtractError("FormatterGroup.gen_format: placeholder pattern not found")
+    a, _, b = pats[0].partition("\x00")
+    emit(f"def group_gen_pre : List Char := {lean_str(a)}")
+    emit(f"def group_gen_post : List Char := {lean_str(b)}")
+    fn = find_func(tree, "format", "FormatterGroup")
+    pats = [p for m, p in re_call_patterns(fn) if m == "finditer"]
+    if len(pats) != 1:
+        raise ExtractError("FormatterGroup.format: placeholder pattern not found")
+    emit(f"def group_format_re : List Char := {lean_str(pats[0])}")
+
+    # the five formatter classes ----------------------------------------------------------------
+    emit_class_tables(emit, "serial", F.Serial, F.Serial())
+    emit(f"def serial_max_padding : Nat := {int(F.Serial.Config.serial_max_padding)}")
+    emit(f"def serial_max_binary : Nat := {int(F.Serial.Config.serial_max_binary)}")
+    emit_class_tables(emit, "datetime", F.Datetime, F.Datetime())
+    emit_class_tables(emit, "version", F.Version, F.Version())
+    emit_class_tables(emit, "naming", F.Naming, F.Naming())
+    emit_class_tables(emit, "storage", F.Storage, F.Storage())
+    emit(f"def storage_rounding : Nat := {int(F.Storage.Config.storage_rounding)}")
+    emit(f"def months : List (List Char × List Char) := " + lean_list(F.MONTHS.items(), lambda kv: f"({lean_str(kv[0])}, {lean_str(kv[1])})"))
+    emit(f"def weeks : List (List Char × List Char) := " + lean_list(F.WEEKS.items(), lambda kv: f"({lean_str(kv[0])}, {lean_str(kv[1])})"))
+    emit(f"def weeks_full : List (List Char × List Char) := " + lean_list(F.WEEKS_FULL.items(), lambda kv: f"({lean_str(kv[0])}, {lean_str(kv[1])})"))
+    emit(f"def sizes : List (List Char) := {lean_list(F.SIZE)}")
+
+    # Datetime renderer table: directive -> (strip leading zeros?, strftime directive)
+    import datetime as _dt
+    probe = _dt.datetime(2023, 9, 8, 7, 6, 5, 4321)
+    rows = []
+    for k, v in F.Datetime.formatter(probe).items():
+        f = v["value"]
+        if not isinstance(f, functools.partial):
+            raise ExtractError(f"Datetime renderer of {k} is not a functools.partial")
+        name = getattr(f.func, "__name__", "")
+        if name == "strftime" and len(f.args) == 1 and getattr(f.func, "__self__", None) == probe:
+            rows.append((k, False, f.args[0]))
+        elif name == "remove_pad_dt" and len(f.args) == 2 and f.args[0] == probe:
+            rows.append((k, True, f.args[1]))
+        else:
+            raise ExtractError(f"Datetime renderer of {k}: unexpected shape {f!r}")
+    emit("def datetime_renderers : List (List Char × Bool × List Char) := " + lean_list(rows, lambda r: f"({lean_str(r[0])}, {'true' if r[1] else 'false'}, {lean_str(r[2])})"))
+
+    # Version.__from_prefix table
+    fn = find_func(tree, "__from_prefix", "Version")
+    table = None
+    for n in ast.walk(fn):
+        if isinstance(n, ast.For) and isinstance(n.iter, ast.Tuple):
+            try:
+                table = ast.literal_eval(n.iter)
+            except Exception:
+                pass
+    if not table:
+        raise ExtractError("Version.__from_prefix: table not found")
+    emit("def from_prefix_table : List (List Char × List (List Char)) := " + lean_list(table, lambda t: f"({lean_str(t[0])}, {lean_list(t[1])})"))
+    pats = [p for m, p in re_call_patterns(fn) if m == "match"]
+    if len(pats) != 3:
+        raise ExtractError(f"Version.__from_prefix: expected 3 patterns, got {pats}")
+    emit(f"def from_prefix_tail : List Char := {lean_str(pats[0].partition(chr(0))[2])}")
+    emit(f"def from_prefix_tail2 : List Char := {lean_str(pats[1].partition(chr(0))[2])}")
+    emit(f"def from_prefix_implicit : List Char := {lean_str(pats[2])}")
+
+
+SECTIONS = [("versions", extract_versions), ("formatters", extract_formatters)]
 
 
 def generate() -> str:
